@@ -2,13 +2,28 @@
    Property theorems only; each closed with [exact] and followed by
    Print Assumptions.
 
-   Worlds: [init t ks] = an empty cache directory at wall-clock time t and
-   one process per entry of ks; [run c w evs] executes a schedule of
-   [Run p] (one file operation of process p), [Crash p] (p is killed; the OS
-   drops its advisory lock) and [Tick d] events.  "Code as it is" = process
-   kinds KLoad / KRefresh; "repaired protocol" = KLoadFixed / KRefreshFixed
-   (and KDownload, the download path's _safe_move_tmp_to_folder, which is
-   already written that way). *)
+   Worlds: [init t ks] = an empty cache directory at wall-clock time t, [init_from s0 ks] = a
+   directory in ANY state s0, and one process per entry of ks; [run c w evs] executes a schedule
+   of [Run p] (one file operation of process p), [Crash p] (p is killed; the OS drops its
+   advisory lock) and [Tick d] events.
+
+   TERMINOLOGY.  /repo contains the four repairs of this property:
+     da46472 (C19-F1) CacheLock actually acquires the cache lock
+     19ec63c (C19-F2) bundled schemas are copied into the cache atomically
+     160dd4a (C19-F3) a bundled version loads although the cache holds only part of the files
+     b23f2f7 (C19-F4) an empty/garbled last_update.txt is tolerated and written atomically
+   "THE CODE AS IT IS" therefore means the process kinds KLoadFixed / KRefreshFixed / KRefreshOf
+   (identifiers are historical: "Fixed" = as fixed by these commits) and KDownload (the download
+   path's _safe_move_tmp_to_folder, unchanged), with every ANTI-PATTERN switch of cfg false and
+   parse_fallback false; the harness drives /repo against exactly these programs (FIXED = 1, its
+   default).  The kinds KLoad / KRefresh ([is_prefix_kind]) are the behaviour BEFORE those
+   commits; every theorem about them (the three [_refuted] ones, the witnesses up to
+   C19_stamp_witness, C19_finished_population_identical, C19_two_finish_example) is kept as the
+   RECORD OF THE REPAIRED DEFECTS and says nothing about the present implementation.  The cfg
+   switches unlink_on_release / cleanup_outside_lock / memo_stamp / per_process_locks /
+   ignore_future_stamp are
+   anti-patterns that were never in /repo (seeded by testers); their refutations document why the
+   theorems about the code as it is carry the corresponding hypotheses. *)
 From Coq Require Import List Arith Bool.
 From HV Require Import Base.Res Model.Cache Proofs.CacheProofs.
 Import ListNotations.
@@ -20,28 +35,29 @@ Import ListNotations.
        returned the bundled schema (no parse error, URLError, "not cached");
    lock_exclusive_stmt c ks  : two processes are never both between a
        successful CacheLock.__enter__ and its __exit__.
-   Each is FALSE of the code as it is (concrete schedules below, replayed on
-   the implementation by the harness: findings C19-F2, C19-F3, C19-F1) and
-   TRUE of the repaired protocol for every number of processes and every
-   schedule, crashes included. *)
+   RECORD OF THE REPAIRED DEFECTS: each was FALSE of the behaviour before the fix commits
+   (kinds KLoad/KRefresh; concrete schedules below; they were replayed on the implementation
+   as it was then: C19-F2 before 19ec63c, C19-F3 before 160dd4a, C19-F1 before da46472).
+   Each is TRUE of the code as it is for every number of processes and every schedule,
+   crashes included: theorems C19_fixed_* and C19_*_any_directory further down. *)
 
 Theorem C19_no_torn_visible_refuted :
-  exists c ks, forallb is_cur_kind ks = true /\ ~ no_torn_visible_stmt c ks.
+  exists c ks, forallb is_prefix_kind ks = true /\ ~ no_torn_visible_stmt c ks.
 Proof. exact no_torn_visible_refuted. Qed.
 Print Assumptions C19_no_torn_visible_refuted.
 
 Theorem C19_load_succeeds_after_crash_refuted :
-  exists c ks, forallb is_cur_kind ks = true /\ ~ load_succeeds_stmt c ks.
+  exists c ks, forallb is_prefix_kind ks = true /\ ~ load_succeeds_stmt c ks.
 Proof. exact load_succeeds_after_crash_refuted. Qed.
 Print Assumptions C19_load_succeeds_after_crash_refuted.
 
 Theorem C19_lock_exclusive_refuted :
-  exists c ks, forallb is_cur_kind ks = true /\ ~ lock_exclusive_stmt c ks.
+  exists c ks, forallb is_prefix_kind ks = true /\ ~ lock_exclusive_stmt c ks.
 Proof. exact lock_exclusive_refuted. Qed.
 Print Assumptions C19_lock_exclusive_refuted.
 
-(* the witnesses themselves, with what is observed (two loaders of version 1,
-   two bundled files of two chunks each) *)
+(* the witnesses themselves (behaviour BEFORE the fix commits), with what was observed (two
+   loaders of version 1, two bundled files of two chunks each) *)
 
 (* killed inside the in-place copy: torn file under the final name, next load = parse error *)
 Theorem C19_torn_witness :
@@ -84,20 +100,21 @@ Proof. exact lock_witness. Qed.
 Print Assumptions C19_lock_witness.
 
 (* nobody killed: CacheLock.__enter__ reads the half-written last_update.txt of a
-   concurrent refresher; the load raises ValueError (finding C19-F4) *)
+   concurrent refresher; the load raised ValueError (C19-F4, behaviour before b23f2f7) *)
 Theorem C19_stamp_witness :
   let w := run c2 (init t0 [KLoad 1; KLoad 1; KLoad 1]) ev_stamp in
   no_crash ev_stamp /\ stamp (sh w) = StampTorn /\ outcome_of w 1 = Some (OFail FValueError).
 Proof. exact stamp_witness. Qed.
 Print Assumptions C19_stamp_witness.
 
-(* ---- what DOES hold of the code as it is, for all schedules --------------- *)
+(* ---- all-schedule theorems: one about the pre-fix kinds (record), the refresh clause for both -- *)
 
-(* Any number of loaders/refreshers, any interleaving, nobody killed: once all
-   have finished every cached schema file is identical to the installed one,
-   and if one of them went through population all bundled files are there. *)
+(* RECORD (behaviour before 19ec63c, in-place copies): any number of loaders/refreshers, any
+   interleaving, nobody killed: once all have finished every cached schema file is identical to
+   the installed one, and if one of them went through population all bundled files are there.
+   (For the code as it is the stronger C19_fixed_finished_population holds, kills included.) *)
 Theorem C19_finished_population_identical : forall c t ks evs,
-  forallb is_cur_kind ks = true -> no_crash evs ->
+  forallb is_prefix_kind ks = true -> no_crash evs ->
   all_done (run c (init t ks) evs) ->
   (forall f x, ver (run c (init t ks) evs) f = Some x -> x = good (nchunks c)) /\
   (forall p r, nth_error (procs (run c (init t ks) evs)) p = Some r -> populated r = true ->
@@ -108,10 +125,10 @@ Print Assumptions C19_finished_population_identical.
 (* cache_xml_versions entered within the refresh interval of the time recorded in the SHARED
    last_update.txt is skipped: nothing in the directory, the lock or the network counter changes
    and the caller sees the cache error (-1).  Any world, any process; holds of the code as it is
-   (LFallback) and of the repaired one (XEnter).  (memo_stamp is the anti-pattern switch "remember
+   (XEnter) and held before the fixes too (LFallback).  (memo_stamp is the anti-pattern switch "remember
    the time per process", refuted below; it is off in both.) *)
 Theorem C19_refresh_within_interval_skipped : forall c w p r t,
-  memo_stamp c = false ->
+  memo_stamp c = false -> ignore_future_stamp c = false ->
   nth_error (procs w) p = Some r ->
   (pc_of r = LFallback \/ pc_of r = XEnter) ->
   stamp (sh w) = StampAt t -> clock (sh w) - t < threshold c ->
@@ -127,7 +144,7 @@ Print Assumptions C19_refresh_within_interval_skipped.
    no shared state (global counter included) and, whatever ANY process does afterwards in ANY
    schedule, that call has ended as skipped with its own request counter unchanged *)
 Theorem C19_refresh_skipped_all_schedules : forall c w p r t evs,
-  memo_stamp c = false ->
+  memo_stamp c = false -> ignore_future_stamp c = false ->
   nth_error (procs w) p = Some r ->
   (pc_of r = XEnter \/ (pc_of r = LFallback /\ kind_of r = KRefresh)) ->
   stamp (sh w) = StampAt t -> clock (sh w) - t < threshold c ->
@@ -136,6 +153,21 @@ Theorem C19_refresh_skipped_all_schedules : forall c w p r t evs,
              pc_of r' = Done OSkipped /\ cache_err r' = true /\ nreq r' = nreq r.
 Proof. exact refresh_skipped_all_schedules. Qed.
 Print Assumptions C19_refresh_skipped_all_schedules.
+
+(* the sign edge of the time arithmetic: the recorded time is AT or AHEAD of the caller's clock
+   (the clock was stepped back -- schedules may contain [Back d] events -- or another host with a
+   clock ahead wrote the stamp).  "now - last" is then <= 0 < threshold: the attempt is skipped.
+   (All all-schedule theorems of this file quantify over schedules with [Back] events too.) *)
+Theorem C19_refresh_future_stamp_skipped : forall c w p r t evs,
+  memo_stamp c = false -> ignore_future_stamp c = false -> 0 < threshold c ->
+  nth_error (procs w) p = Some r ->
+  (pc_of r = XEnter \/ (pc_of r = LFallback /\ kind_of r = KRefresh)) ->
+  stamp (sh w) = StampAt t -> clock (sh w) <= t ->
+  netreqs (sh (step c w (Run p))) = netreqs (sh w) /\
+  exists r', nth_error (procs (run c w (Run p :: evs))) p = Some r' /\
+             pc_of r' = Done OSkipped /\ cache_err r' = true /\ nreq r' = nreq r.
+Proof. exact refresh_future_stamp_skipped. Qed.
+Print Assumptions C19_refresh_future_stamp_skipped.
 
 (* history theorem: the decision of CacheLock.__enter__ (threshold test) and the shared state it
    leaves are functions of the shared directory state alone; the past of the deciding process
@@ -150,6 +182,7 @@ Print Assumptions C19_enter_decision_history_free.
 
 (* ... and it is not skipped outside the interval (one network request) *)
 Theorem C19_refresh_outside_interval_proceeds : forall c w p r,
+  ignore_future_stamp c = false ->
   nth_error (procs w) p = Some r -> pc_of r = LFallback ->
   (stamp (sh w) = NoStamp \/ exists t, stamp (sh w) = StampAt t /\ threshold c <= clock (sh w) - t) ->
   netreqs (sh (run c w [Run p; Run p])) = S (netreqs (sh w)).
@@ -165,7 +198,9 @@ Theorem C19_safe_move_atomic : forall c t ks evs f x,
 Proof. exact safe_move_atomic. Qed.
 Print Assumptions C19_safe_move_atomic.
 
-(* ---- the repaired protocol: the full clauses, all schedules ---------------- *)
+(* ---- THE CODE AS IT IS (/repo with da46472, 19ec63c, 160dd4a, b23f2f7; kinds K..Fixed):
+        the full clauses, all schedules, from an empty directory.  The same from a directory in
+        any state: C19_*_any_directory at the end of this file. ------------------------------- *)
 
 (* (cleanup_outside_lock c = false: no process removes temporary files that are not its own --
    the assumption under which the protocol is correct; the anti-pattern that breaks it is refuted
@@ -184,7 +219,9 @@ Print Assumptions C19_fixed_load_succeeds.
    different file, an open descriptor keeps the old one, advisory locks are per file.  Exclusion
    holds for every number of contenders, every order of arrivals, waiters blocked inside acquire
    when the holder leaves, kills at any point -- PROVIDED release does not remove the lock file and
-   the advisory lock belongs to the open file, not to the OS process.  A model "process" is one
+   the advisory lock belongs to the open file, not to the OS process (whether the platform's
+   primitive -- portalocker's default, BSD flock on Linux -- has that ownership is NOT proved here:
+   it is platform trust, tested on every run by the harness' same-process / nested schedules).  A model "process" is one
    contender with its own CacheLock object (own open lock file): a thread, a nested second
    CacheLock of the same thread, or another OS process; the theorem covers every mix of them. *)
 Theorem C19_fixed_lock_exclusive : forall c ks,
@@ -226,7 +263,7 @@ Theorem C19_fixed_free_lock_acquired : forall c w p r,
 Proof. exact fixed_free_lock_acquired. Qed.
 Print Assumptions C19_fixed_free_lock_acquired.
 
-(* termination / no deadlock: a repaired loader of a bundled version that is
+(* termination / no deadlock: a loader (code as it is) of a bundled version that is
    never killed itself and gets [load_bound c] = 9 + nfiles*(nchunks+4) + max_tries
    turns has returned the bundled schema -- whatever the other processes do,
    however they are scheduled or killed (a dead lock holder loses the lock; a
@@ -292,7 +329,8 @@ Print Assumptions C19_cleanup_contrast.
 (* ANTI-PATTERN, refuted: the last-update time memoised per OS process.  Calls 0 and 2 belong to
    OS process 7: it refreshes at 50, another process refreshes at 70, process 7 tries again at 71:
    not skipped, a third network request, although the shared stamp is one time unit old.  With the
-   shared stamp read every time (code as it is / repaired) the third call is skipped (contrast). *)
+   shared stamp read every time (the code as it is, and before the fixes) the third call is
+   skipped (contrast). *)
 Theorem C19_memo_witness :
   let w := run c2m (init t0 ks_memo) ev_memo in
   stamp (sh w) = StampAt 70 /\ clock (sh w) = 71 /\ netreqs (sh w) = 3 /\
@@ -339,14 +377,116 @@ Theorem C19_same_process_contrast :
 Proof. exact same_process_contrast. Qed.
 Print Assumptions C19_same_process_contrast.
 
+(* ANTI-PATTERN, refuted (never in /repo): "a time in the future cannot be the time of an update:
+   ignore it" (0 <= now - last < threshold).  P0 refreshes at 50, the clock is stepped back by 3,
+   P1 attempts a refresh at 47: not skipped, a second request, the stamp overwritten.  The code as
+   it is skips it (contrast). *)
+Theorem C19_future_stamp_witness :
+  let w := run c2i (init t0 [KRefreshFixed; KRefreshFixed]) ev_future in
+  clock (sh w) = 47 /\ netreqs (sh w) = 2 /\ stamp (sh w) = StampAt 47 /\
+  exists r, nth_error (procs w) 1 = Some r /\ nreq r = 1 /\ cache_err r = false.
+Proof. exact future_stamp_witness. Qed.
+Print Assumptions C19_future_stamp_witness.
+
+Theorem C19_future_stamp_contrast :
+  let w := run c2 (init t0 [KRefreshFixed; KRefreshFixed]) ev_future in
+  clock (sh w) = 47 /\ netreqs (sh w) = 1 /\ stamp (sh w) = StampAt 50 /\
+  outcome_of w 1 = Some OSkipped /\
+  exists r, nth_error (procs w) 1 = Some r /\ nreq r = 0 /\ cache_err r = true.
+Proof. exact future_stamp_contrast. Qed.
+Print Assumptions C19_future_stamp_contrast.
+
+(* ---- the directory may be in ANY state when the processes start ------------------------------
+   The statement says "regardless of the state in which an earlier or concurrent process left the
+   cache directory".  Earlier processes of the code as it is are covered above (they are members of
+   ks that are killed at any point).  The theorems below drop the empty start: s0 is ARBITRARY --
+   leftover temporary files, last_update.txt in any state (torn included), a lock file, advisory
+   locks still held by processes outside ks, any clock -- except for ONE requirement, dir_ok:
+   every file under a final (version-pattern) name is complete.  dir_ok is not an assumption
+   about the code as it is (C19_no_torn_visible_any_directory: it is preserved, so no process of
+   the current code can break it); it excludes directories written by versions before 19ec63c or
+   damaged by hand.  For those the implementation does NOT meet the property: see
+   C19_preexisting_torn_file_witness (known finding C19-F5, reproduced on /repo by the harness)
+   and, for the proposed repair fix-F5 (parse_fallback, NOT in /repo), C19_f5_*. *)
+
+Theorem C19_no_torn_visible_any_directory : forall c ks,
+  cleanup_outside_lock c = false -> forallb is_fixed_kind ks = true -> no_torn_visible_from c ks.
+Proof. exact no_torn_visible_any_directory. Qed.
+Print Assumptions C19_no_torn_visible_any_directory.
+
+Theorem C19_load_succeeds_any_directory : forall c ks,
+  cleanup_outside_lock c = false -> forallb is_fixed_kind ks = true -> load_succeeds_from c ks.
+Proof. exact load_succeeds_any_directory. Qed.
+Print Assumptions C19_load_succeeds_any_directory.
+
+Theorem C19_lock_exclusive_any_directory : forall c ks,
+  unlink_on_release c = false -> per_process_locks c = false -> cleanup_outside_lock c = false ->
+  forallb is_fixed_kind ks = true -> lock_exclusive_from c ks.
+Proof. exact lock_exclusive_any_directory. Qed.
+Print Assumptions C19_lock_exclusive_any_directory.
+
+Theorem C19_finished_population_any_directory : forall c s0 ks evs p r f,
+  cleanup_outside_lock c = false -> forallb is_fixed_kind ks = true -> dir_ok c s0 ->
+  nth_error (procs (run c (init_from s0 ks) evs)) p = Some r -> populated r = true ->
+  f < nfiles c -> ver (run c (init_from s0 ks) evs) f = Some (good (nchunks c)).
+Proof. exact finished_population_any_directory. Qed.
+Print Assumptions C19_finished_population_any_directory.
+
+Theorem C19_load_terminates_any_directory : forall c s0 ks evs p v,
+  cleanup_outside_lock c = false -> forallb is_fixed_kind ks = true -> dir_ok c s0 ->
+  nth_error ks p = Some (KLoadFixed v) -> v < nfiles c ->
+  never_killed p evs -> load_bound c <= count_run p evs ->
+  outcome_of (run c (init_from s0 ks) evs) p = Some OLoaded.
+Proof. exact load_terminates_any_directory. Qed.
+Print Assumptions C19_load_terminates_any_directory.
+
+(* non-vacuity of dir_ok on a directory full of leftovers: complete file 0, a dead process's
+   temporary copy of file 1, a torn time stamp, a lock file whose lock a process outside ks holds *)
+Theorem C19_leftovers_example :
+  dir_ok c2 s_left /\
+  (let w := run c2 (init_from s_left [KLoadFixed 1; KRefreshFixed]) (runs 0 3 ++ runs 1 6) in
+   outcome_of w 0 = Some OLoaded /\ outcome_of w 1 = Some OSkipped /\ ver w 0 = Some (good 2)).
+Proof. exact leftovers_example. Qed.
+Print Assumptions C19_leftovers_example.
+
+(* OPEN FINDING C19-F5 (the code as it is, /repo): dir_ok cannot be dropped.  A final-name file
+   that is already torn when the processes start is neither healed nor avoided: the load of that
+   version ends with the parse error, the file is kept. *)
+Theorem C19_preexisting_torn_file_witness :
+  ~ dir_ok c2 s_torn /\
+  (let w := run c2 (init_from s_torn [KLoadFixed 1]) (runs 0 2) in
+   outcome_of w 0 = Some (OFail FParse) /\ ver w 1 = Some [Good]).
+Proof. exact preexisting_torn_file_witness. Qed.
+Print Assumptions C19_preexisting_torn_file_witness.
+
+(* PROPOSED repair fix-F5 (parse_fallback = true; /root/work/C19/fix-F5.diff, not in /repo): a cache
+   copy that does not parse falls back to the installed file.  Then a finished load of a bundled
+   version has returned the bundled schema from EVERY directory state s0, no requirement at all.
+   (The torn file is still KEPT -- the repair does not delete it; C19_f5_torn_example.) *)
+Theorem C19_f5_load_succeeds_every_directory : forall c ks s0 evs p r v o,
+  cleanup_outside_lock c = false -> parse_fallback c = true -> forallb is_fixed_kind ks = true ->
+  nth_error (procs (run c (init_from s0 ks) evs)) p = Some r ->
+  kind_of r = KLoadFixed v -> v < nfiles c -> pc_of r = Done o -> o = OLoaded.
+Proof. exact f5_load_succeeds_every_directory. Qed.
+Print Assumptions C19_f5_load_succeeds_every_directory.
+
+Theorem C19_f5_torn_example :
+  let w := run c2f (init_from s_torn [KLoadFixed 1]) (runs 0 3) in
+  outcome_of w 0 = Some OLoaded /\ ver w 1 = Some [Good].
+Proof. exact f5_torn_example. Qed.
+Print Assumptions C19_f5_torn_example.
+
 (* ---- non-vacuity ----------------------------------------------------------- *)
 
+(* RECORD: two loaders of the behaviour BEFORE the fix commits interleaved step by step *)
 Example C19_two_finish_example :
   let w := run c2 (init t0 [KLoad 1; KLoad 0]) ev_two in
   no_crash ev_two /\ all_done w /\ ver w 0 = Some (good 2) /\ ver w 1 = Some (good 2) /\
   outcome_of w 0 = Some OLoaded /\ outcome_of w 1 = Some OLoaded.
 Proof. exact two_finish_example. Qed.
 
+(* the code as it is (model in the mode that matches /repo): a populator is killed while holding the
+   lock in the middle of a copy, a second populator, a loader and a refresher interleave *)
 Example C19_fixed_example :
   let w := run c2 (init t0 [KLoadFixed 1; KLoadFixed 1; KLoadFixed 0; KRefreshFixed]) ev_fixed in
   pc_at w 0 = Some Dead /\ outcome_of w 1 = Some OLoaded /\ outcome_of w 2 = Some OLoaded /\
